@@ -145,7 +145,7 @@ def dec_events(tier, seed, rep):
                 o['Dblk'] = rng.choice([[1, 2], [2, 1], [1, INF], [3, 1], [2, 3]])     # a dictionary with DIFFERENT limits in the two sectors
             # partial-SVD policy: only k = D_block[sector] triples are computed per block before the mask is applied, so the dictionary lookup of svd() itself matters
             # (the library states its precondition: 'lowrank policy in svd requires passing argument D_block', i.e. some finite limit)
-            policy = 'lowrank' if which != 'eigh' and rng.random() < 0.5 and any(d not in (INF, MISSING) for d in o['Dblk']) else 'fullrank'
+            policy = rng.choice(('lowrank', 'lowrank', 'block_arnoldi', 'block_propack')) if which != 'eigh' and rng.random() < 0.5 and any(d not in (INF, MISSING) for d in o['Dblk']) else 'fullrank'
             sU, nU = rng.choice((1, -1)), rng.choice((True, False))
             # charge of the new (spectrum) leg for the sector with row charge c: dictionary options are keyed by it
             shift = 1 if (which == 'svd3' and not nU) else 0
